@@ -144,6 +144,16 @@ func NewEx(conf *Config, fset *token.FileSet, files ...*ast.File) (ret Result, e
 			onConflict(fset, item.c, firsts, i, at)
 		})
 	}
+	// detect left recursion of every rule (not only of those used in a choice)
+	for _, f := range files {
+		for _, decl := range f.Decls {
+			if decl, ok := decl.(*ast.Rule); ok {
+				if v := rules[decl.Name.Name]; v.Elem != nil {
+					v.First(nil)
+				}
+			}
+		}
+	}
 	ret = Result{doc, rules}
 	return
 }
